@@ -29,7 +29,10 @@ INC == <<105, 46, 108, 105, 113>>                       \* i.liq, in the engine'
 IncBody == <<T(<<60>>), Ob(Var(X)), T(<<44>>), Ob(Var(Y)), T(<<62>>)>>
 Inc == [t |-> "include", e |-> Lit(Str(INC))]
 TopPath == <<116, 46, 108, 105, 113>>
-Cx12 == [Cx0 EXCEPT !.path = TopPath, !.cache = << <<INC, IncBody>> >>]
+\* (perm: the order a loop walks the two entries of the map m in - here the order of the keys; the trace checker accepts either)
+Cx12 == [Cx0 EXCEPT !.path = TopPath, !.cache = << <<INC, IncBody>> >>, !.perm = <<1, 2>>]
+M12 == <<109>>
+E12 == << <<M12, MapV(<< <<<<97>>, IntV(1)>>, <<<<98>>, IntV(2)>> >>)>> >>
 Stmts == <<
   (* 1 *) <<[t |-> "assign", name |-> X, e |-> Lit(IntV(1))]>>,
   (* 2 *) <<[t |-> "assign", name |-> X, e |-> Lit(Str(<<115>>))]>>,
@@ -65,7 +68,11 @@ Stmts == <<
   (* 15: ... and in straight-line code (with 14, or twice: several include tags of the same file in one template) *)
           <<Inc>>,
   (* 16: a capture whose body is one object and nothing else: the variable holds the TEXT the object printed *)
-          <<[t |-> "capture", name |-> X, body |-> <<Ob(Var(Y))>>]>>
+          <<[t |-> "capture", name |-> X, body |-> <<Ob(Var(Y))>>]>>,
+  (* 17: the pair a loop over a map hands out in its first iteration, assigned: it is still that pair after the loop *)
+          <<[t |-> "for", tag |-> "for", var |-> X, coll |-> Var(M12),
+             body |-> <<[t |-> "if", branches |-> <<[c |-> [t |-> "prop", e |-> Var(B_forloop), name |-> B_first],
+                                                     body |-> <<[t |-> "assign", name |-> Y, e |-> Var(X)]>>]>>]>>]>>
 >>
 NS == Len(Stmts)
 
@@ -92,6 +99,7 @@ Decl(ix, s) ==
                    [] i = 6 -> [s EXCEPT !.out = @ \o Tx(s.x) \o <<124>> \o Tx(s.y) \o <<124>> \o Tx(s.fl) \o <<35>>
                                                     \o (IF s.x.k = "str" THEN IntText(Len(s.x.v)) ELSE <<>>) \o (IF Truthy(s.x) THEN <<116>> ELSE <<102>>) \o <<59>>]
                    [] i = 16 -> [s EXCEPT !.x = Str(Tx(s.y))]
+                   [] i = 17 -> [s EXCEPT !.y = Arr(<<Str(<<97>>), IntV(1)>>)]
                    [] i = 7 -> IF Truthy(s.x) THEN [s EXCEPT !.y = IntV(2)] ELSE s
                    [] i = 8 -> [s EXCEPT !.y = IntV(2)]
                    [] i = 9 -> [s EXCEPT !.y = Str(<<49, 50>>)]
@@ -104,7 +112,7 @@ Decl(ix, s) ==
        IN  Decl(Tail(ix), s2)
 DeclOut(ix) == Decl(ix \o <<6>>, [x |-> Nil, y |-> Nil, fl |-> Nil, out |-> <<>>]).out
 
-Init == \E ix \in Programs : p = ix /\ st = InitSt(ProgOf(ix), EnvOf(<<>>), Sink0, Cx12)
+Init == \E ix \in Programs : p = ix /\ st = InitSt(ProgOf(ix), EnvOf(E12), Sink0, Cx12)
 Next == st.status = "run" /\ st' = Step(Cx12, st) /\ p' = p
 
 Terminates == st.status \in {"run", "ok"}
@@ -116,15 +124,15 @@ ForloopRestored == LoopFrames = {} => (IsNil(Lookup(st.env, B_forloop)) \/ Same(
 InCapture(s) == \E j \in 1..Len(s.k) : s.k[j].f = "seq" /\ s.k[j].end = "capture"
 CaptureSilent == [][(InCapture(st) /\ InCapture(st')) => st'.sink = st.sink]_vars
 \* wrapping the program in capture and printing the variable renders the same
-CaptureLaw == st.status = "ok" => Render(Cx12, Wrapped(p), EnvOf(<<>>)).out = st.sink.acc
+CaptureLaw == st.status = "ok" => Render(Cx12, Wrapped(p), EnvOf(E12)).out = st.sink.acc
 
 IdOf(ix) == "p" \o ToString(ix)
-Where == [path |-> TopPath, usedir |-> TRUE, cache |-> << <<INC, IncBody>> >>]
+Where == [path |-> TopPath, usedir |-> TRUE, cache |-> << <<INC, IncBody>> >>] @@ (IF \E k \in 1..Len(p) : p[k] = 17 THEN [anyorder |-> 2] ELSE <<>>)
 EmitCase == st.status # "run" =>
-              /\ PrintT(ToJson([id |-> IdOf(p), kind |-> "render", prog |-> ProgOf(p), env |-> <<>>] @@ Where))
-              /\ PrintT(ToJson([id |-> "w" \o IdOf(p), kind |-> "render", prog |-> Wrapped(p), env |-> <<>>] @@ Where))
+              /\ PrintT(ToJson([id |-> IdOf(p), kind |-> "render", prog |-> ProgOf(p), env |-> E12] @@ Where))
+              /\ PrintT(ToJson([id |-> "w" \o IdOf(p), kind |-> "render", prog |-> Wrapped(p), env |-> E12] @@ Where))
               \* the same program over outer bindings of the names the loops shadow, held as Drops; the harness puts
               \* its probe tag around every loop: after the loop the name is bound to the very value it was bound to before
               /\ PrintT(ToJson([id |-> "e" \o IdOf(p), kind |-> "render", prog |-> ProgOf(p), snaploops |-> TRUE,
-                                env |-> << <<X, IntV(5)>>, <<Y, Str(<<113>>)>> >>, repr |-> ("x-1" :> "drop") @@ ("y?" :> "drop")] @@ Where))
+                                env |-> << <<X, IntV(5)>>, <<Y, Str(<<113>>)>> >> \o E12, repr |-> ("x-1" :> "drop") @@ ("y?" :> "drop")] @@ Where))
 =============================================================================
